@@ -74,7 +74,12 @@ func (m *Model) UpdatePositions(positions *traits.OpenClosePositions, opts ...re
 		if preset == nil {
 			return nil, status.Errorf(codes.InvalidArgument, "preset %q not found", positions.Preset.Name)
 		}
-		positions.States = presetPositions
+		// copies: positions belongs to the caller, who may edit it after the call (and the writes below filter
+		// their source in place under an update mask); the preset table must not be reachable from it
+		positions.States = make([]*traits.OpenClosePosition, len(presetPositions))
+		for i, presetPosition := range presetPositions {
+			positions.States[i] = proto.Clone(presetPosition).(*traits.OpenClosePosition)
+		}
 	}
 
 	writeRequest := resource.ComputeWriteConfig(opts...)
